@@ -351,6 +351,12 @@ def emulator_family(env, tier="quick"):
         fam.append({"name": "n%d/near_boundary_lossy" % n, "n": n,
                     "ops": [("bs", 0, n - 1, env.R2, "Rx", 0), ("loss", 0, eps), ("bs", n - 1, 0, 1 - eps, "Rx", 0),
                             ("loss", n - 1, 1 - eps), ("bs", 0, n - 1, env.R[1], "H", 0)]})
+        # pure re-routing: the full unitary is a phased permutation matrix (one non-zero entry per row)
+        cyc = tuple((m, (m + 1) % n) for m in range(n))
+        fam.append({"name": "n%d/perm" % n, "n": n,
+                    "ops": [("ps", 0, env.PH[0], 0), ("sw", cyc), ("ps", n - 1, env.PH[1], 0)]})
+        fam.append({"name": "n%d/perm_her" % n, "n": n,
+                    "ops": [("sw", cyc), ("ps", 0, env.PH[2], 0), ("her", 1, 0, 1 % n)]})
         # internal ancillas from heralded sub-circuits (+ an external herald next to them)
         fam.append({"name": "n%d/sub_h3mid" % n, "n": n,
                     "ops": [("add", "h3mid", 0, False), ("bs", 0, n - 1, env.R[1], "Rx", 0)]})
@@ -368,7 +374,7 @@ def emulator_family(env, tier="quick"):
     if tier == "quick":
         # keep every n=2,3 circuit; thin n=4 to one loss placement per herald layout + subs
         fam = [f for f in fam if f["n"] < 4 or "sub" in f["name"] or "/U,L/" in f["name"]
-               or f["name"].endswith("/none") or "near_boundary" in f["name"]]
+               or f["name"].endswith("/none") or "near_boundary" in f["name"] or "/perm" in f["name"]]
     return fam
 
 
